@@ -76,6 +76,28 @@ def solve(hyps, goal, timeout_ms):
     return r, dt, (s.model() if r == z3.sat else None), s
 
 
+def cover(hyps, timeout_ms):
+    """satisfiability of a hypothesis set (vacuity guard).  Quantified facts often leave z3 at `unknown` for
+    satisfiable sets; then the set with quantified subformulas abstracted is checked instead and the result
+    says so."""
+    from .core import _strip_quant, _has_quant
+    s = z3.Solver()
+    s.set('timeout', min(timeout_ms, 1500))
+    s.add(hyps)
+    r = s.check()
+    if r == z3.sat:
+        return 'proved', ''
+    if r == z3.unsat:
+        return 'refuted', 'hypotheses are contradictory'
+    s = z3.Solver()
+    s.set('timeout', timeout_ms)
+    s.add([_strip_quant(h) for h in hyps])
+    r = s.check()
+    if r == z3.sat:
+        return 'proved', 'satisfiable with quantified hypotheses abstracted (z3 left the full set at unknown)'
+    return ('refuted', 'hypotheses are contradictory') if r == z3.unsat else ('unknown', 'cover undecided')
+
+
 def verify_function(world, contracts, stubs, qual, timeout_ms=QUICK_TIMEOUT_MS, concretise=None, keep_smt=False):
     res = FnResult(qual)
     t0 = time.time()
@@ -113,7 +135,6 @@ def _run(eng, world, contracts, qual, res, timeout_ms, concretise, keep_smt):
     st.mod, st.cls, st.fn = mi, (ci.name if ci else None), qual
     st.ghost['$top'] = qual
     ap0 = z3.Const('AP0', Int)
-    st.initial_syms.add('AP0')
     st.ghost['$ap0'] = ap0
     st.ap = ap0
     args = {}
@@ -159,7 +180,22 @@ def _run(eng, world, contracts, qual, res, timeout_ms, concretise, keep_smt):
         from .values import EMPTY_SEQ
         st.loc['$yield'] = EMPTY_SEQ
     npaths = 0
-    for s, out in eng.run(fn.body, st):
+    starts = [st]
+    if con.cases:
+        cs = con.cases(cx)
+        # exhaustiveness of the case split is itself an obligation
+        eng.oblige(st, '%s/cases-exhaustive' % qual, z3.Or(cs), 'ensures')
+        starts = []
+        for c_ in cs:
+            s_ = st.fork()
+            s_.assume(c_)
+            if eng.feasible(s_):
+                starts.append(s_)
+
+    def all_paths():
+        for s0 in starts:
+            yield from eng.run(fn.body, s0)
+    for s, out in all_paths():
         npaths += 1
         if out is None:
             from .values import NONE
@@ -211,23 +247,9 @@ def _run(eng, world, contracts, qual, res, timeout_ms, concretise, keep_smt):
     covered = False
     for ob in eng.obls:
         if ob.kind == 'cover':
-            s = z3.Solver()
-            s.set('timeout', timeout_ms)
-            s.add(ob.hyps)
             t1 = time.time()
-            r = s.check()
-            dt = time.time() - t1
-            status = 'proved' if r == z3.sat else ('unknown' if r == z3.unknown else 'refuted')
-            # a cover obligation is "proved" when its hypotheses are satisfiable (quantified hypotheses may
-            # leave z3 at unknown: then we drop the quantified facts and retry)
-            if r == z3.unknown:
-                s = z3.Solver()
-                s.set('timeout', timeout_ms)
-                s.add([h for h in ob.hyps if not _has_quant(h)])
-                r = s.check()
-                status = 'proved' if r == z3.sat else 'unknown'
-            res.obligations.append(ObResult(ob.name, ob.kind, status, dt,
-                                            reason='' if status == 'proved' else 'precondition unsatisfiable or undecided'))
+            status, note = cover(ob.hyps, timeout_ms)
+            res.obligations.append(ObResult(ob.name, ob.kind, status, time.time() - t1, reason=note))
             continue
         r, dt, model, solver = solve(ob.hyps, ob.goal, timeout_ms)
         if r == z3.unsat:
